@@ -389,3 +389,183 @@ func cheapDesc(w, h, kind, acls int) string {
 // line pair; 2: one pair; 3: pair + last single row; 4: two pairs).
 var WideWidths = []int{1023, 1024, 1025, 1100, 2047, 2048, 2049, 4097}
 var WideHeights = []int{1, 2, 3, 4}
+
+// ---------------------------------------------------------------------------------------------------
+// Units without a picture dimension: bytes, tokens, colors, frames, chunks. Cheap generators where one
+// exists; the suites draw a few per run and record them with CountCount.
+
+// CountCase is one count (blob length, colour count, frame count ...) just below / on / above a threshold.
+type CountCase struct {
+	N   int
+	T   Threshold
+	Rel int
+}
+
+func (c CountCase) Tag() string { return c.T.Tag() }
+func (c CountCase) String() string {
+	return fmt.Sprintf("%d(%s%+d)", c.N, c.T.Tag()[len("threshold:"):], c.Rel)
+}
+
+// CountCases lists {t-1, t, t+1} for every threshold of the unit with min <= t and t+1 <= max.
+func CountCases(unit string, min, max int) []CountCase {
+	var out []CountCase
+	seen := map[[2]int]bool{}
+	for _, t := range Thresholds {
+		if t.Unit != unit || t.Value < min || t.Value+1 > max {
+			continue
+		}
+		for i, n := range []int{t.Value - 1, t.Value, t.Value + 1} {
+			if n < 0 || seen[[2]int{n, t.Value}] {
+				continue
+			}
+			seen[[2]int{n, t.Value}] = true
+			out = append(out, CountCase{n, t, i - 1})
+		}
+	}
+	return out
+}
+
+// DrawCountCases: deterministic draw of k of them (all when k >= their number).
+func DrawCountCases(seed, salt uint64, k int, unit string, min, max int) []CountCase {
+	all := CountCases(unit, min, max)
+	if k >= len(all) {
+		return all
+	}
+	r := NewRNG(seed, 0x7420_0000+salt)
+	for i := len(all) - 1; i > 0; i-- {
+		j := r.Intn(i + 1)
+		all[i], all[j] = all[j], all[i]
+	}
+	return all[:k]
+}
+
+func CountCount(rep *Report, c CountCase) { rep.Count(c.Tag()) }
+
+// BlobLens: metadata / payload lengths around the byte thresholds up to max (1024, 4096, 65536 are
+// cheap; 2^19 and 2^24 cost a copy each; the 100 MiB metadata cap is probed separately with one shared
+// buffer - see MetadataCap).
+func BlobLens(max int) []CountCase { return CountCases("bytes", 8, max) }
+
+// MetadataCap is the documented cap of an ICC / EXIF / XMP blob (encode.go maxEncoderMetadataSize,
+// mux.maxMetadataSize, container.MaxMetadataSize): writers and readers must agree on exactly n > cap.
+const MetadataCap = 100 << 20
+
+var capBufOnce []byte
+
+// CapBuffer returns one shared buffer of MetadataCap+1 bytes (content: a cheap byte pattern); callers
+// slice it to cap-1 / cap / cap+1 and must not modify it.
+func CapBuffer() []byte {
+	if capBufOnce == nil {
+		b := make([]byte, MetadataCap+1)
+		for i := 0; i < len(b); i += 4093 {
+			b[i] = byte(i >> 12)
+		}
+		b[0], b[len(b)-1], b[len(b)-2], b[len(b)-3] = 'c', 0xA1, 0xA2, 0xA3
+		capBufOnce = b
+	}
+	return capBufOnce
+}
+
+// GenColorCountImage: a w x h opaque picture with exactly n distinct colours (n <= w*h, n <= 1<<24),
+// every colour occurring, arranged in short runs (colour thresholds 2 / 4 / 16 / 256: palette packing
+// 8 / 4 / 2 / 1 pixels per byte, palette vs no palette at 257).
+func GenColorCountImage(r *RNG, w, h, n int) *image.NRGBA {
+	if n > w*h {
+		n = w * h
+	}
+	if n < 1 {
+		n = 1
+	}
+	img := image.NewNRGBA(image.Rect(0, 0, w, h))
+	base := uint32(r.Next())
+	col := func(k int) (byte, byte, byte) {
+		v := base + uint32(k)*0x010305 // distinct for k < 2^24 / 5
+		return byte(v), byte(v >> 8), byte(v>>16) ^ byte(k>>8)
+	}
+	// distinctness guard for the rare wrap: fall back to a plain counter
+	seen := map[[3]byte]bool{}
+	ok := true
+	for k := 0; k < n && ok; k++ {
+		a, b, c := col(k)
+		if seen[[3]byte{a, b, c}] {
+			ok = false
+		}
+		seen[[3]byte{a, b, c}] = true
+	}
+	if !ok {
+		col = func(k int) (byte, byte, byte) { return byte(k), byte(k >> 8), byte(k >> 16) }
+	}
+	run := 1 + r.Intn(4)
+	for i := 0; i < w*h; i++ {
+		k := i // the first n pixels: every colour once
+		if i >= n {
+			k = ((i / run) * 7) % n
+		}
+		a, b, c := col(k)
+		o := 4 * i
+		img.Pix[o], img.Pix[o+1], img.Pix[o+2], img.Pix[o+3] = a, b, c, 255
+	}
+	return img
+}
+
+// GenAlphaLevelsImage: like GenColorCountImage for the ALPHA channel: exactly n distinct alpha values
+// (n <= 256, n <= w*h) on a flat colour (alpha thresholds 16 and 192 of the lossy alpha filter choice,
+// 2 / 4 / 16 of the palette packing of the compressed plane).
+func GenAlphaLevelsImage(r *RNG, w, h, n int) *image.NRGBA {
+	if n > 256 {
+		n = 256
+	}
+	if n > w*h {
+		n = w * h
+	}
+	if n < 1 {
+		n = 1
+	}
+	img := image.NewNRGBA(image.Rect(0, 0, w, h))
+	c := [3]byte{byte(r.Next()), byte(r.Next()), byte(r.Next())}
+	lv := func(k int) byte { return byte(255 - k*255/maxi(n-1, 1)) } // spread over 0..255, 0 and 255 included for n >= 2
+	if n == 256 {
+		lv = func(k int) byte { return byte(k) }
+	}
+	run := 1 + r.Intn(5)
+	for i := 0; i < w*h; i++ {
+		k := i
+		if i >= n {
+			k = ((i / run) * 5) % n
+		}
+		o := 4 * i
+		img.Pix[o], img.Pix[o+1], img.Pix[o+2], img.Pix[o+3] = c[0], c[1], c[2], lv(k)
+	}
+	return img
+}
+
+// TokenCase: a lossy picture whose token count is estimated to sit below / above a token threshold.
+// Estimate: uniform colour noise at Quality 90 costs about 9.6 coefficient tokens per pixel (measured on
+// the unchanged tree: 208x176 -> 352 k tokens), so 32768 tokens are crossed between 56x56 and 64x56;
+// the cases bracket the threshold generously instead of pretending to hit it: 48x48 (~22 k), 56x56
+// (~30 k), 64x56 (~34 k), 64x64 (~39 k), 80x64 (~49 k). Partitions 1..3 put the page straddle into play.
+type TokenCase struct {
+	W, H    int
+	Quality int
+	Est     int
+	T       Threshold
+}
+
+func TokenCases() []TokenCase {
+	var t Threshold
+	for _, x := range Thresholds {
+		if x.Unit == "tokens" && x.Value == 32768 {
+			t = x
+		}
+	}
+	var out []TokenCase
+	for _, d := range [][2]int{{48, 48}, {56, 56}, {64, 56}, {64, 64}, {80, 64}, {33, 120}} {
+		out = append(out, TokenCase{d[0], d[1], 90, d[0] * d[1] * 96 / 10, t})
+	}
+	return out
+}
+
+// FrameCounts: animation lengths around the frame thresholds (2: serial vs parallel frame decoding; 30:
+// key-frame cache; 10000: the frame cap, only when max allows it - 10001 one-pixel frames through the
+// muxer are cheap, through the animation encoder they are not).
+func FrameCounts(max int) []CountCase { return CountCases("frames", 2, max) }
